@@ -23,6 +23,9 @@ import time
 VERIF = os.path.dirname(os.path.dirname(os.path.abspath(__file__)))
 LEAN_DIR = os.path.join(VERIF, 'lean')
 REPO = os.environ.get('PLINIO_SRC', '/repo')
+# evidence/ and replays/ live in /verif, except for development runs against a scratch copy
+# (PLINIO_SRC set), which must never overwrite the evidence of the real tree
+OUT = os.environ.get('VERIF_OUT') or (VERIF if REPO == '/repo' else os.path.join(REPO, 'verif_out'))
 ALLOWED_AXIOMS = {'propext', 'Classical.choice', 'Quot.sound'}
 FORBIDDEN_TOKENS = re.compile(
     r'\b(sorry|admit|native_decide|bv_decide|implemented_by|unsafe)\b|^\s*axiom\s|maxHeartbeats\s+0\b',
@@ -241,7 +244,7 @@ class Check:
     # --------------------------------------------------------------------- verdict
     def finish(self):
         known = load_known(self.prop)
-        os.makedirs(os.path.join(VERIF, 'replays'), exist_ok=True)
+        os.makedirs(os.path.join(OUT, 'replays'), exist_ok=True)
         exit_code = 0
         lines = []
         seen_known, new_by_key = {}, {}
@@ -254,7 +257,7 @@ class Check:
             lines.append('KNOWN-FINDING: property=%s %s [%s]' % (self.prop, known[key]['what'], key))
         for i, (key, v) in enumerate(sorted(new_by_key.items())):
             path = os.path.join('replays', '%s-%d-%d.json' % (self.prop, self.seed, i))
-            with open(os.path.join(VERIF, path), 'w') as fh:
+            with open(os.path.join(OUT, path), 'w') as fh:
                 json.dump({'property': self.prop, 'seed': self.seed, 'tier': self.tier, 'key': key,
                            'what': v['what'], 'case': v['case'],
                            'replay_cmd': './check %s --replay %s' % (self.prop, path)}, fh, indent=1, default=str)
@@ -266,7 +269,7 @@ class Check:
                           % (len(self.corr_disagreements), json.dumps(self.corr_disagreements[0], default=str)[:600]))
         if broken and not new_by_key:
             path = os.path.join('replays', '%s-%d-unproved.json' % (self.prop, self.seed))
-            with open(os.path.join(VERIF, path), 'w') as fh:
+            with open(os.path.join(OUT, path), 'w') as fh:
                 json.dump({'property': self.prop, 'seed': self.seed, 'tier': self.tier,
                            'no_longer_checks': broken,
                            'correspondence_disagreements': self.corr_disagreements[:10],
@@ -304,8 +307,8 @@ class Check:
         ev = {'property_id': self.prop, 'tier': self.tier, 'seed': self.seed, 'level': self.level,
               'coverage': cov, 'assumptions': self.assumptions,
               'wall_s': round(time.time() - self.t0, 2), 'violations': len(new_by_key) + (1 if broken and not new_by_key else 0)}
-        os.makedirs(os.path.join(VERIF, 'evidence'), exist_ok=True)
-        with open(os.path.join(VERIF, 'evidence', self.prop + '.json'), 'w') as fh:
+        os.makedirs(os.path.join(OUT, 'evidence'), exist_ok=True)
+        with open(os.path.join(OUT, 'evidence', self.prop + '.json'), 'w') as fh:
             json.dump(ev, fh, indent=1, default=str)
         for l in lines:
             print(l)
